@@ -115,6 +115,8 @@ class Root(Controller):
             res.status = h['status']
         k = h['kind']
         ps = [piece(p) for p in h['chunks']]
+        if k in ('str', 'bytes', 'list') and h.get('stream'):
+            res.stream = True
         if k == 'str':
             return ''.join(ps)
         if k == 'bytes':
@@ -239,6 +241,10 @@ class C15(Prop):
                 h['chunks'].append(p)
             if kind == 'iter':
                 h['stream'] = rng.random() < 0.6
+            elif kind in ('str', 'bytes', 'list') and rng.random() < 0.12:
+                # the stream flag on a body that is not an iterator only works for an empty body
+                h['chunks'] = [] if kind == 'list' else [['s' if kind == 'str' else 'b', '', 0]]
+                h['stream'] = True
         return h
 
     def _req(self, rng, h):
@@ -271,8 +277,10 @@ class C15(Prop):
             else:
                 chunks = [['b' if kind != 'str' else 's', '', 0]]
             for v, st in itertools.product(['1.1', '1.0'], [False, True]):
-                if st and kind != 'iter':
+                if st and kind in ('yield', 'file'):
                     continue
+                if st and kind == 'list':
+                    chunks = []
                 h = {'kind': kind, 'tag': '1', 'status': None, 'chunks': chunks, 'stream': st}
                 cases.append({'reqs': [{'m': 'GET', 'v': v, 'conn': 'keep-alive', 'h': h},
                                        {'m': 'GET', 'v': v, 'conn': None, 'h': self._handler(rng, 'str', True)}]})
@@ -349,7 +357,7 @@ class C15(Prop):
         if h.get('ct'):
             pre.append(('Content-Type', h['ct']))
         close0 = wants_close(r)
-        sized, stream = True, False
+        sized, stream = True, bool(h.get('stream'))
         chunks = []
         if k in ('str', 'bytes'):
             b = b''.join(piece_bytes(p) for p in h['chunks'])
